@@ -33,7 +33,7 @@ CLAIMED["C01"] = ("proof", DATA_NOTE + "C01: a case contributes only if every in
     "non-interference of one input's values on the others (propagation theorems), observation sharing.", "7 C01", "Coq proof over hand model + correspondence check")
 CLAIMED["C02"] = ("proof", DATA_NOTE + "C02: value_by_coordinate (the cell used is the one stored at the first occurrence of the coordinates in the "
     "input's own lists, through the index recomputation after -d/-tod), first-index and order-free intersection lemmas; permutation of "
-    "entries / input order checked metamorphically on the implementation.", "7 C02", "Coq proof over hand model + correspondence check")
+    "entries / input order checked metamorphically on the implementation. Added theorems: the verified dimensions depend on membership only -- permuting (or duplicating) the entries inside any input, or permuting the inputs, leaves them unchanged (strictly ascending lists with equal members are equal).", "7 C02", "Coq proof over hand model + correspondence check")
 CLAIMED["C03"] = ("proof", DATA_NOTE + "C03: membership iff for times / lead times / locations incl. all nine subsetting options with inclusive ranges, "
     "strictly ascending dimensions, -obsrange masking, empty selection never numeric.", "7 C03", "Coq proof over hand model + correspondence check")
 CLAIMED["C04"] = ("proof", DATA_NOTE + "C04: get_scores delivers numbers only or the single NaN, kept positions valid in every requested field, "
@@ -65,17 +65,17 @@ CLAIMED["C05"] = ("proof", TRANS_NOTE + "C05: pair filter (no valid pair => NaN,
     "the documented quantity for ANY aggregator (mae, bias, diff, ratio, rmse), closed forms / undefined cases / never-better-than-perfect / "
     "perfect-forecast theorems for mae, bias, rmse, stderror, nsec, diff on vectors of every length; 21 metric classes x 16 aggregators "
     "validated; alphaindex perfect score REFUTED (known finding), leps not modelled (falsifier only); rank correlations are named "
-    "specifications compared with scipy.", "7 C05", "Coq proof over translated source + translation validation")
+    "specifications compared with scipy. Added: Cauchy-Schwarz for lists of reals, hence the generated Corr is within [-1, 1] whenever it is a number and equals 1 for identical vectors.", "7 C05", "Coq proof over translated source + translation validation")
 CLAIMED["C08"] = ("proof", TRANS_NOTE + "C08: event probability from the CDF for all 8 bin types, Brier score / uncertainty / skill score closed forms, "
     "complement symmetry, every probability in [0,1] lies in exactly one of the 10 bins (exact double edges, top edge 1.001), ensemble-derived "
     "probability = fraction of present members (in [0,1], missing members ignored, all missing => NaN), pinball terms non-negative. The "
     "binned reliability/resolution terms are generated per bin + hand glue (Model/Brier.v) and validated on floats; the Murphy "
-    "decomposition is checked as an identity on every run (its proof is not done: partial).", "7 C08", "Coq proof over translated source + translation validation")
+    "decomposition is checked as an identity on every run (its proof is not done: partial). Added: QuantileCoverage translated (three branches); theorems pin the lower/upper inclusion flag to its own end of the interval; falsifier for metrics that write into the arrays cached in the dataset.", "7 C08", "Coq proof over translated source + translation validation")
 CLAIMED["C15"] = ("proof", TRANS_NOTE + "C15: every generated aggregator is its statistic (mean, sum, meanabs != absmean, count, min, max, range, change, "
     "abschange, variance, std, iqr, quantile with level in [0,1]); -T: hand model Model/Window.v of preaggregate_leadtime/_time with the "
     "theorem that for every strictly increasing grid the aggregated positions are exactly the trailing window (l-h, l] (irregular spacing, "
     "any window length), same function for obs/fcst/members; REFUTED for unsorted grids (known finding); model tied over Q for 12 aggregators; "
-    "aggregation along every axis of arrays up to 4-D and ensemble pre-aggregation checked on the implementation.", "7 C15",
+    "aggregation along every axis of arrays up to 4-D and ensemble pre-aggregation checked on the implementation. Falsifier enumerates every aggregator along every axis of 1-4-D arrays.", "7 C15",
     "Coq proof over translated source + hand model with correspondence check")
 CLAIMED["C13"] = ("proof", "Option tables GENERATED from driver.run's AST on every run (boolean chain, valued chain with parser kind, Data(...) "
     "keywords, pl.<attr> block, validations); theorems: every documented data-selection flag reaches its documented constructor "
@@ -84,13 +84,13 @@ CLAIMED["C13"] = ("proof", "Option tables GENERATED from driver.run's AST on eve
     "distinct variables, files keeping their order), --config tokens are appended, unknown flag / missing value / missing config name / "
     "range arity are rejected; vector syntax: a:s:b has k+1 elements ending exactly at b when hit (over Q, unbounded k). Ties: "
     "Model/ParseNumbers.v vs util.parse_numbers on a grid of strings incl. combinations and date ranges; Model/Cli.v composed with "
-    "Model/Data.v vs `verif ... --list-times --list-locations` on generated text files, random option subsets/orders/--config.",
+    "Model/Data.v vs `verif ... --list-times --list-locations` on generated text files, random option subsets/orders/--config. Added: two --config files one after the other (theorem + tie), --list-dates for times that are not on the hour (model date_clock, theorem C13_list_dates_clock for every unix time, tied to the printed lines).",
     "7 C13", "Coq proof over translated option tables + hand model with correspondence check")
 CLAIMED["C12"] = ("proof", "Hand model Model/Table.v of Standard._get_x_y and the text/csv writers with axiom-free theorems for any number of inputs and "
     "slices: one row per slice in axis order, one column per input in command-line order, each cell is that input's score on that "
     "slice, -acc cells are prefix sums with missing scores counted as 0. Tie: the model composed with Model/Data.v (mae/bias over Q) "
     "against the parsed csv/text output of the real command line on generated files for all 13 axes, -acc, -leg, -f; descriptors, "
-    "threshold rows and the 6/4 significant digits checked numerically (PARTIAL: %g formatting itself is library behaviour).",
+    "threshold rows and the 6/4 significant digits checked numerically (PARTIAL: %g formatting itself is library behaviour). Added: cells for several thresholds on a data axis are the average over the intervals; row labels of aggregated time axes (year/month/week/day).",
     "7 C12", "Coq proof over hand model + correspondence check")
 CLAIMED["C09"] = ("proof", "Hand model Model/TextParse.v of verif.input.Text on lexed lines with axiom-free theorems for files of any size: the "
     "dimensions are exactly the coordinates occurring in the rows (ascending, no duplicates); every cube cell is the value of the row "
@@ -116,7 +116,7 @@ CLAIMED["C20"] = ("proof", "Hand-written executable model (coq/Model/Scripts.v, 
     "the observation is missing; an observation is placed exactly where the valid time matches (first matching source case) and nowhere "
     "else. PARTIAL: NetCDF/scipy I/O and float32 storage are outside the model. The tie runs the real scripts on generated text and NetCDF "
     "files every run, reads every written variable back with netCDF4 and compares with the model (vm_compute) and an independent oracle; "
-    "times, lead times, location metadata and untouched fields must be preserved.",
+    "times, lead times, location metadata and untouched fields must be preserved. Generators include lead times that are not whole hours and thresholds/levels in arbitrary order.",
     "7 C20", "Coq proof over a hand-written model + script-level correspondence check (partial)")
 CLAIMED["C19"] = ("proof", "PARTIAL. GENERATED from /repo on every run (Gen/Gen_caps.v): the capability attributes of every metric and output class "
     "(resolved along inheritance), the -m name -> Output class chain, the three statements of driver.run that drop an unsupported -x and "
@@ -127,7 +127,7 @@ CLAIMED["C19"] = ("proof", "PARTIAL. GENERATED from /repo on every run (Gen/Gen_
     "class. Whether numpy/matplotlib raise inside a permitted combination is runtime behaviour no Coq model can exhibit: the check "
     "ENUMERATES verif.driver.run over names x 20 -x values x 8 output types x 7 dataset shapes (+ -r/-q/-b/-agg variants) -- a stratified "
     "sample in quick, the full product in thorough or whenever a proof/tie is broken -- and reports every unhandled exception with its argv; "
-    "the model's keep/drop decision is compared with the driver's warnings for every (name, axis) pair.",
+    "the model's keep/drop decision is compared with the driver's warnings for every (name, axis) pair. Also GENERATED: which of the six core methods every Output class defines and which one each -type finally calls; theorems: every documented type is routed, class Standard defines all six, every diagram can be plotted; the predicted refusal (explanatory exit) of unsupported types is compared with the driver for every (name, type) pair. Dataset shapes now include inputs with different columns; conditional axes are run with every aggregator variant.",
     "7 C19", "Coq proof over translated gating logic and capability tables + exhaustive enumeration of the real driver (partial)")
 CLAIMED["C17"] = ("proof", "PARTIAL. The chain command line -> driver variable -> Output attribute -> attribute read by verif/output.py is "
     "proved over the option tables GENERATED from /repo on every run (Gen/Gen_cli.v: flag chains, the pl.<attr> = <var> block, every "
